@@ -74,7 +74,7 @@ SPEC = dict(
     isinstance=dict(_c16.GATE_ISINSTANCE),
     idioms=dict(_c16.SPEC["idioms"]),
     # idiom int-to-decimal-string: the renderings of Evqe/Names.v
-    fstring_int={"": "string_of_name (dec {0})", "06d": "string_of_name (pad6 {0})"},
+    fstring_int={"": "string_of_name (dec {0})", "06d": "string_of_name (pad6_py {0})"},
     # idiom mutable-argument-as-result: which object each of these calls mutates in place
     mutating_calls={"id": "self", "u": "self", "append": "self", "assign_parameters": "self", "apply_gate": "circuit"},
     coercions={(repr(CIRC), repr(LCIRC)): "{0}", (repr(LCIRC), repr(CIRC)): "{0}", (repr(GATEOBJ), repr(CIRC)): "{0}"},
